@@ -1050,7 +1050,9 @@ func (handler *Handler) ProxyDatabaseConnection(ctx context.Context, errCh chan<
 			// Ok, EOF or ERROR packets are the last in the query response
 			// sequence. After them, we should continue serving.
 			// https://dev.mysql.com/doc/dev/mysql-server/latest/page_protocol_com_query_response.html
-			last := packet.IsErr() || packet.IsEOF()
+			// (a binary row, or a text row whose first column is empty, starts with 0x00 like an OK
+			// packet and is longer than 7 bytes: it does not end the rows and must be skipped too)
+			last := packet.IsErr() || (packet.IsEOF() && packet.data[0] != OkPacket)
 			if last {
 				state = stateServe
 			}
